@@ -15,6 +15,16 @@ CHECKS = {
              'paths on real numpy and comparing outputs); integers stand for symbols (mixed-type lists and numpy dtype '
              'coercion are outside the encoding).',
         design='4/C13'),
+    'C15': dict(
+        text='Bounded symbolic execution of the real merge_transcriptions_and_logits / find_best_overlap / '
+             'levenshtein_distance source over parts made of symbolic characters (every equality pattern) with '
+             'provenance-labelled logit rows.  On every path the merged length, the retained head of the first part, '
+             'the tail of the last part, the logit row count and the row-to-character provenance are checked against '
+             'the overlaps the detector returned; a second harness replaces the detector by an arbitrary admissible '
+             'overlap so that 3-4 parts are covered independently of the edit-distance forks.',
+        note='Trusted: z3, the symnp facade (validated by witness replay on real numpy), characters as integer codes. '
+             "'At most half of the overlap' is read as ceil(o/2) from the left part, floor(o/2) from the right part.",
+        design='4/C15'),
 }
 
 NOT_APPLICABLE = {
